@@ -311,6 +311,51 @@ func c02EntryPoints(e *liquid.Engine, src string, b func() map[string]any) (name
 		}
 		return first, nil
 	})
+	// earlier activity must not matter: the same entry point right after a render that failed
+	// half-way (partial output already produced) and after an unrelated successful render
+	failing := "LEFT{{ 1 }}OVER{{ 2 }}{{ 1 | divided_by: 0 }}"
+	other := "unrelated {{ 'output' | upcase }} {% for i in (1..3) %}{{ i }}{% endfor %}"
+	for _, prior := range []string{failing, other} {
+		prior := prior
+		tag := "a failed render"
+		if prior == other {
+			tag = "an unrelated render"
+		}
+		add("Render after "+tag, func() (string, liquid.SourceError) {
+			if pt, err := e.ParseString(prior); err == nil {
+				pt.Render(b())
+			}
+			t, err := parse()
+			if err != nil {
+				return "", err
+			}
+			out, err := t.Render(b())
+			return string(out), err
+		})
+		add("RenderString after "+tag, func() (string, liquid.SourceError) {
+			if pt, err := e.ParseString(prior); err == nil {
+				pt.RenderString(b())
+			}
+			t, err := parse()
+			if err != nil {
+				return "", err
+			}
+			return t.RenderString(b())
+		})
+		add("ParseAndRender after "+tag, func() (string, liquid.SourceError) {
+			e.ParseAndRender([]byte(prior), b())
+			out, err := e.ParseAndRender([]byte(src), b())
+			return string(out), err
+		})
+		add("FRender after "+tag, func() (string, liquid.SourceError) {
+			var w0, w bytes.Buffer
+			e.ParseAndFRender(&w0, []byte(prior), b())
+			if err := e.ParseAndFRender(&w, []byte(src), b()); err != nil {
+				return "", err
+			}
+			return w.String(), nil
+		})
+	}
 	add("fresh engine", func() (string, liquid.SourceError) {
 		out, err := c02Engine().ParseAndRender([]byte(src), b())
 		return string(out), err
@@ -469,7 +514,7 @@ func init() {
 		Level: "model_checking",
 		Rule: "map order: 19 map-consuming templates (for with modifiers, tablerow, object, every array filter, nested maps, assign, include, capture, contains, IterationKeyedMap, MapSlice, typed map) x maps of 2,3,4,8,12 entries x insertion orders (all n! for n<=4, cyclic shifts + reversal beyond); " +
 			"every Go map-iteration start during the render is an environment choice point owned by the harness through a runtime overlay; deviation-bounded DFS over all answers (<=1 deviation quick, <=3 thorough), executions run to completion, outputs must equal the canonical one; " +
-			"entry points: every template of a ~400-template pool (the repository's own test templates + fault pool) through 6 entry points, 3 re-renders of one parsed template, fresh engine, bindings rebuilt per call; two fresh processes render the pool and must agree (digest); thorough adds the command-line tool as a sub-process; " +
+			"entry points: every template of a ~400-template pool (the repository's own test templates + fault pool) through 6 entry points, 3 re-renders of one parsed template, each entry point again right after a render that failed half-way and after an unrelated render, fresh engine, bindings rebuilt per call; two fresh processes render the pool and must agree (digest); thorough adds the command-line tool as a sub-process; " +
 			"state = choice-vector prefix; transition = one deviation taken; trace = one execution of the real render under that environment",
 		Assumptions: []string{
 			"the runtime seam is tied to go1.23's bucket maps: tools/rtseam.sh verifies its anchors and the check reports exhaustive:false when they are missing",
